@@ -2,6 +2,7 @@
 import PM.Step
 import Proofs.ReplaceValid
 import Proofs.Marks
+import Proofs.DfaRun
 namespace PM
 
 /-! ### mark sets -/
@@ -137,15 +138,6 @@ def TextStableP (S : Schema) : Prop :=
   ∀ t q q1 q2, (S.dfa t).matchType q S.textTy = some q1 →
     (S.dfa t).matchType q1 S.textTy = some q2 → q2 = q1
 
-theorem Dfa.run_append (d : Dfa) : ∀ (q : Nat) (a b : List TypeId),
-    d.run q (a ++ b) = (d.run q a).bind (fun q' => d.run q' b)
-  | q, [], b => by simp [Dfa.run]
-  | q, x :: xs, b => by
-    simp only [List.cons_append, Dfa.run]
-    split
-    · exact Dfa.run_append d _ xs b
-    · rfl
-
 theorem Dfa.run_text_text {S : Schema} (hts : TextStableP S) (t : TypeId) (q r : Nat)
     (rest : List TypeId)
     (h : (S.dfa t).run q (S.textTy :: S.textTy :: rest) = some r) :
@@ -160,9 +152,6 @@ theorem Dfa.run_text_text {S : Schema} (hts : TextStableP S) (t : TypeId) (q r :
       exact h
     · simp at h
   · simp at h
-
-theorem types_append (S : Schema) (a b : List Node) : S.types (a ++ b) = S.types a ++ S.types b := by
-  simp [Schema.types]
 
 /-- one `add_node` step does not change the state the automaton reaches -/
 theorem run_addNode {S : Schema} (hts : TextStableP S) (t : TypeId) (T : List Node) (c : Node)
